@@ -81,6 +81,14 @@ func effectsFor(p *load.Program) *effectsInfo {
 		a := guardsEngine(p).Analyze(b.Parent())
 		return a != nil && a.Converged && a.ReachableBlock(b) && a.EntailsEq(b, a.LenOf(v).Plus(-n))
 	}
+	effects.FillOracle = func(callee *ssa.Function) (int, int, bool) {
+		fl, ok := guardsEngine(p).FillOf(callee)
+		return fl.Dst, fl.Src, ok
+	}
+	effects.LenAtLeastOracle = func(at ssa.Instruction, v ssa.Value, n int64) bool {
+		a := guardsEngine(p).Analyze(at.Parent())
+		return a != nil && a.Converged && a.LenAtLeastBefore(at, v, n)
+	}
 	info.Funcs = moduleFuncs(p)
 	for _, f := range info.Funcs {
 		info.byName[effects.ShortFunc(f)] = f
